@@ -22,8 +22,11 @@ def replaceAll (pat rep s : Str) : Str := replaceGo pat rep 0 s
 
 /-- the seven terminal-control sequences `EventIO.write` deletes, in the order of the
     `.replace` chain -/
+def esc : Char := Char.ofNat 27
+
 def deletions : List Str :=
-  ["\x1b[H", "\x1b[999;999H", "\x1b[6n", "\x1b[2J", "\x1b[r", "\x1b[u", "\x1b7"].map String.toList
+  [[esc, '[', 'H'], [esc, '[', '9', '9', '9', ';', '9', '9', '9', 'H'], [esc, '[', '6', 'n'], [esc, '[', '2', 'J'],
+   [esc, '[', 'r'], [esc, '[', 'u'], [esc, '7']]
 
 /-- the `.replace(…)` chain at the top of `EventIO.write` -/
 def normalise (s : Str) : Str :=
